@@ -436,13 +436,13 @@ package vm
 //@   panics any
 
 // burnCoins: SendCoinsFromAccountToModule then BurnCoins: supply and balance shrink by exactly `coins`; a normal return
-// means every amount was spendable (not vesting-locked at the block time of the context).
+// means every (positive) amount was spendable (not vesting-locked at the block time of the context).
 //@ func (d cStateDb) burnCoins(accAddr sdk.AccAddress, coins sdk.Coins)
 //@   requires d.bankKeeper != nil
 //@   modifies bankBal[layer(d.currentCtx)], bankSupply[layer(d.currentCtx)], authVersion[layer(d.currentCtx)], evlog[payload(d.currentCtx.EventManager())]
 //@   ensures[C04.burn_balances] forall a bytes, den string :: bankBal[layer(d.currentCtx)][a][den] == old(bankBal[layer(d.currentCtx)][a][den]) - (a == bytes(accAddr) ? coinsAmt(content(coins), den) : 0)
 //@   ensures[C04.burn_supply] forall den string :: bankSupply[layer(d.currentCtx)][den] == old(bankSupply[layer(d.currentCtx)][den]) - coinsAmt(content(coins), den)
-//@   ensures[C15.burn_only_spendable] forall den string :: coinsAmt(content(coins), den) <= old(bankBal[layer(d.currentCtx)][bytes(accAddr)][den]) - bankLocked(layer(d.currentCtx), hdr(d.currentCtx), bytes(accAddr), den)
+//@   ensures[C15.burn_only_spendable] forall den string :: coinsAmt(content(coins), den) > 0 ==> coinsAmt(content(coins), den) <= old(bankBal[layer(d.currentCtx)][bytes(accAddr)][den]) - bankLocked(layer(d.currentCtx), hdr(d.currentCtx), bytes(accAddr), den)
 //@   panics any
 
 //@ func (d *cStateDb) AddBalance(address common.Address, b *big.Int)
@@ -459,7 +459,7 @@ package vm
 //@   ensures[C03.mut_touched] forall a common.Address :: (a in d.touched) == (a == address || old(a in d.touched))
 //@   ensures[C04.sub_balance] forall a bytes, den string :: bankBal[layer(d.currentCtx)][a][den] == old(bankBal[layer(d.currentCtx)][a][den]) - ((a == addrBytes(address) && den == d.evmDenom) ? bigval[b] : 0)
 //@   ensures[C04.sub_supply] forall den string :: bankSupply[layer(d.currentCtx)][den] == old(bankSupply[layer(d.currentCtx)][den]) - (den == d.evmDenom ? bigval[b] : 0)
-//@   ensures[C15.sub_only_spendable] bigval[b] <= old(bankBal[layer(d.currentCtx)][addrBytes(address)][d.evmDenom]) - bankLocked(layer(d.currentCtx), hdr(d.currentCtx), addrBytes(address), d.evmDenom)
+//@   ensures[C15.sub_only_spendable] bigval[b] > 0 ==> bigval[b] <= old(bankBal[layer(d.currentCtx)][addrBytes(address)][d.evmDenom]) - bankLocked(layer(d.currentCtx), hdr(d.currentCtx), addrBytes(address), d.evmDenom)
 //@   panics any
 
 // ---------------------------------------------------------------------------------------------
